@@ -1156,7 +1156,16 @@ def check_chain(ck, case, res, seed, tier):
         else:
             ck.count("rounds that hit the iteration limit")
     # ---------------- (d) fixed point
-    if len(texts) > ROUNDS and P[ROUNDS] is not None and P[ROUNDS - 1] is not None:
+    def _excl(g_):
+        return sorted((e.get("kind"), e.get("type"), e.get("from"), e.get("to"), e.get("id")) for e in g_.trace
+                      if e.get("kind") in ("rm_obs_abs_term", "rm_point"))
+    if len(texts) > ROUNDS and P[ROUNDS] is not None and P[ROUNDS - 1] is not None and ROUNDS >= 2 \
+            and _excl(runs[ROUNDS - 2]) != _excl(runs[ROUNDS - 1]):
+        # the two adjustments whose exports are compared worked with different sets of observations (gama excludes by
+        # absolute terms, which depend on the approximate coordinates: a chain that starts far from the solution may
+        # need more rounds to settle) -- as for relation (c), nothing to relate
+        ck.inconc("fixed point: exclusions differ between the last two rounds")
+    elif len(texts) > ROUNDS and P[ROUNDS] is not None and P[ROUNDS - 1] is not None:
         seen = set()
         for view, A, B in (("reader", P[ROUNDS - 1], P[ROUNDS]), ("parser", M[ROUNDS - 1], M[ROUNDS])):
             if A is None or B is None:
